@@ -302,6 +302,7 @@ func runC13(p *Program, r *Report) {
 	// --- forward
 	{
 		e := NewEngine(p)
+		e.MaxForks = 4 // the per-axis case split may sit in an unrolled three-iteration loop
 		outs, err := extract(p, e, toLab, nil)
 		if err != nil {
 			r.Violate("C13.fwd", "ToLAB extractable", p.FnPos(toLab), err.Error())
@@ -398,6 +399,7 @@ func runC13(p *Program, r *Report) {
 	// --- inverse
 	{
 		e := NewEngine(p)
+		e.MaxForks = 4
 		outs, err := extract(p, e, fromLab, nil)
 		if err != nil {
 			r.Violate("C13.inv", "ColorFromLAB extractable", p.FnPos(fromLab), err.Error())
